@@ -243,6 +243,24 @@ func runSchedCase(c *ccase, out *bufio.Writer) error {
 				return err
 			}
 			runIdx++
+		case "pref":
+			// follow the listed threads while they can move; where the listed thread is blocked or finished (the
+			// code under test changed), or after the list, run the lowest enabled thread: always a complete run
+			var lst []int
+			for _, x := range f[1:] {
+				v, _ := strconv.Atoi(x)
+				lst = append(lst, v)
+			}
+			_, _, _, err := execCase(c, out, runIdx, func(step int, en []int, last int) int {
+				if step < len(lst) && contains(en, lst[step]) {
+					return lst[step]
+				}
+				return en[0]
+			})
+			if err != nil {
+				return err
+			}
+			runIdx++
 		case "all":
 			maxpre, _ := strconv.Atoi(f[1])
 			maxruns, _ := strconv.Atoi(f[2])
